@@ -10,6 +10,28 @@ namespace Foca
 def IdWire (i : Id) : Prop := i.addr < 65536 ∧ i.gen < 65536
 def MWire (m : Member) : Prop := IdWire m.id ∧ m.inc < 65536
 
+/-- within the wire range, and at an incarnation the instance was told for that identity (`τ`, as in `TellInv`;
+    `fun _ => 65535` when only the range matters) -/
+def MW (τ : Id → Nat) (m : Member) : Prop := MWire m ∧ m.inc ≤ τ m.id
+
+theorem MW.mono {τ τ' : Id → Nat} (h : ∀ id, τ id ≤ τ' id) {m : Member} (hm : MW τ m) : MW τ' m :=
+  ⟨hm.1, Nat.le_trans hm.2 (h _)⟩
+
+theorem MW.down0 (τ : Id → Nat) {i : Id} (hi : IdWire i) : MW τ ⟨i, 0, .down⟩ := ⟨⟨hi, by simp⟩, Nat.zero_le _⟩
+
+/-- the identities and the `u8` probe numbers inside a message are within the wire range -/
+def MsgWire : Msg → Prop
+  | .ping n | .ack n => n < 256
+  | .pingReq t n | .indirectPing t n | .indirectAck t n | .forwardedAck t n => IdWire t ∧ n < 256
+  | _ => True
+
+/-- every field of a header is within the wire range -/
+def HWire (h : Header) : Prop := IdWire h.src ∧ h.srcInc < 65536 ∧ IdWire h.dst ∧ MsgWire h.msg
+
+/-- the codec reads back every wire-range header it wrote, whatever follows -/
+def HeaderLaw (c : Codec) : Prop :=
+  ∀ (h : Header) (rest : Bytes), HWire h → c.decHeader (c.encHeader h ++ rest) = some (h, rest)
+
 theorem renew_wire {p : Policy} {i j : Id} (hi : IdWire i) (h : renew p i = some j) : IdWire j := by
   cases p <;> simp [renew] at h <;> subst h
   · exact ⟨hi.1, Nat.mod_lt _ (by omega)⟩
@@ -70,22 +92,23 @@ theorem applyExisting_all {Q : Member → Prop} {ms ms' : List Member} {u : Memb
         · exact ih hr (fun x hx => hinv x (by simp [hx])) m hm
 
 section
-variable (E : Env)
+variable (E : Env) (τ : Id → Nat)
 
 def WireInv (s : State) : Prop :=
-  IdWire s.id ∧ s.inc < 65536 ∧ (∀ m ∈ s.ms, MWire m) ∧ (∀ m, s.probe.direct = some m → MWire m) ∧
-  (∀ e ∈ s.updates, ∃ u : Member, e.data = E.codec.encMember u ∧ MWire u)
+  IdWire s.id ∧ (s.inc < 65536 ∧ s.probe.number < 256) ∧ (∀ m ∈ s.ms, MW τ m) ∧ (∀ m, s.probe.direct = some m → MW τ m) ∧
+  (∀ e ∈ s.updates, ∃ u : Member, e.data = E.codec.encMember u ∧ MW τ u)
 
 theorem WireInv.of_same {s s' : State} (h0 : s'.id = s.id) (hi : s'.inc = s.inc) (h1 : s'.ms = s.ms)
-    (h2 : s'.updates = s.updates) (h3 : ProbeKeep s.probe s'.probe) (h : WireInv E s) : WireInv E s' := by
+    (h2 : s'.updates = s.updates) (h3 : ProbeKeep s.probe s'.probe) (h4 : s'.probe.number = s.probe.number)
+    (h : WireInv E τ s) : WireInv E τ s' := by
   obtain ⟨hid, hinc, ha, hb, hc⟩ := h
-  refine ⟨by rw [h0]; exact hid, by rw [hi]; exact hinc, by rw [h1]; exact ha, ?_, by rw [h2]; exact hc⟩
+  refine ⟨by rw [h0]; exact hid, by rw [hi, h4]; exact hinc, by rw [h1]; exact ha, ?_, by rw [h2]; exact hc⟩
   intro m hm
   rcases h3 with h3 | h3
   · exact hb m (by rw [← h3]; exact hm)
   · rw [h3] at hm; simp at hm
 
-theorem WireInv.removeDown (id : Id) : Pres (WireInv E) (modS fun s => { s with ms := removeIfDown s.ms id }) :=
+theorem WireInv.removeDown (id : Id) : Pres (WireInv E τ) (modS fun s => { s with ms := removeIfDown s.ms id }) :=
   Pres.modS_of (fun s hs => by
     obtain ⟨hid, hinc, ha, hb, hcc⟩ := hs
     refine ⟨hid, hinc, ?_, hb, hcc⟩
@@ -95,8 +118,8 @@ theorem WireInv.removeDown (id : Id) : Pres (WireInv E) (modS fun s => { s with 
     · rw [h] at hm; exact ha m hm
     · exact ha m (hp.mem_iff.1 (List.mem_cons_of_mem _ hm)))
 
-theorem WireInv.base : Base E (WireInv E) MWire where
-  ownDown := fun s hs => ⟨hs.1, by simp⟩
+theorem WireInv.base : Base E (WireInv E τ) (MW τ) where
+  ownDown := fun s hs => MW.down0 τ hs.1
   membersApply := fun u hu => ⟨fun c hc => by
     obtain ⟨hid, hinc, ha, hb, hcc⟩ := hc
     unfold Foca.membersApply
@@ -131,8 +154,8 @@ theorem WireInv.base : Base E (WireInv E) MWire where
     | none => exact ⟨hid, hinc, ha, hb, hcc⟩⟩
   membersNext := ⟨fun c hc => by
     obtain ⟨hid, hinc, ha, hb, hcc⟩ := hc
-    have key : ∀ (l : List Member) (i : Nat), (∀ m ∈ l, MWire m) →
-        ∀ m, (nextPure l i).1 = some m → MWire ⟨m.id, m.inc, .suspect⟩ := by
+    have key : ∀ (l : List Member) (i : Nat), (∀ m ∈ l, MW τ m) →
+        ∀ m, (nextPure l i).1 = some m → MW τ ⟨m.id, m.inc, .suspect⟩ := by
       intro l i hl m hm
       exact hl m (Foca.C14.next_returns_an_active_member l i m hm).1
     unfold Foca.membersNext
@@ -149,14 +172,14 @@ theorem WireInv.base : Base E (WireInv E) MWire where
           by_cases hperm : (p.filterMap (fun i => c.s.ms[i]?)).isPerm c.s.ms = true
           · simp only [hperm, if_true]
             have hp : (p.filterMap (fun i => c.s.ms[i]?)).Perm c.s.ms := List.isPerm_iff.1 hperm
-            have ha' : ∀ m ∈ p.filterMap (fun i => c.s.ms[i]?), MWire m := fun m hm => ha m (hp.mem_iff.1 hm)
+            have ha' : ∀ m ∈ p.filterMap (fun i => c.s.ms[i]?), MW τ m := fun m hm => ha m (hp.mem_iff.1 hm)
             exact ⟨⟨hid, hinc, ha', hb, hcc⟩, key _ _ ha'⟩
           · simp [hperm]
     · simp only [hs, Bool.false_eq_true, if_false]
       exact ⟨⟨hid, hinc, ha, hb, hcc⟩, key _ _ ha⟩⟩
   startProbe := fun m hm => Pres.modS_of (fun s hs => by
     obtain ⟨hid, hinc, ha, _, hcc⟩ := hs
-    refine ⟨hid, hinc, ha, ?_, hcc⟩
+    refine ⟨hid, ⟨hinc.1, by simp only [Probe.start, Gen.probeNumberBump, wrapAdd8]; omega⟩, ha, ?_, hcc⟩
     intro m' hm'
     simp [Probe.start] at hm'
     subst hm'
@@ -176,7 +199,7 @@ theorem WireInv.base : Base E (WireInv E) MWire where
       rcases h1 with h1 | ⟨sp, picks, r, hf, h1⟩
       · rw [h1]; exact hcc
       · rw [h1]
-        exact fill_data (fun d => ∃ u : Member, d = E.codec.encMember u ∧ MWire u) hf hcc⟩
+        exact fill_data (fun d => ∃ u : Member, d = E.codec.encMember u ∧ MW τ u) hf hcc⟩
   addUpdate := fun m hm => by
     unfold Foca.addUpdate
     refine Pres.modS_of (fun s hs => ?_)
@@ -188,33 +211,33 @@ theorem WireInv.base : Base E (WireInv E) MWire where
     · exact hcc e he.1
     · rw [he]; exact ⟨m, rfl, hm⟩
   modCtl := fun f h => Pres.modS_of (fun s hs =>
-    WireInv.of_same E (h s).2.2.2.2.2.1 (h s).2.2.2.2.2.2.1 (h s).1 (h s).2.2.1 (h s).2.2.2.2.2.2.2.2 hs)
-  setHst := fun _ => Pres.modS_of (fun s hs => WireInv.of_same E (s := s) rfl rfl rfl rfl (Or.inl rfl) hs)
-  addCustom := fun _ _ _ _ => Pres.modS_of (fun s hs => WireInv.of_same E (s := s) rfl rfl rfl rfl (Or.inl rfl) hs)
+    WireInv.of_same E τ (h s).2.2.2.2.2.1 (h s).2.2.2.2.2.2.1 (h s).1 (h s).2.2.1 (h s).2.2.2.2.2.2.2.2.1 (h s).2.2.2.2.2.2.2.2.2 hs)
+  setHst := fun _ => Pres.modS_of (fun s hs => WireInv.of_same E τ (s := s) rfl rfl rfl rfl (Or.inl rfl) rfl hs)
+  addCustom := fun _ _ _ _ => Pres.modS_of (fun s hs => WireInv.of_same E τ (s := s) rfl rfl rfl rfl (Or.inl rfl) rfl hs)
 
-theorem WireInv.reset : Pres (WireInv E) Foca.reset := by
+theorem WireInv.reset : Pres (WireInv E τ) Foca.reset := by
   unfold Foca.reset
   exact Pres.modS_of (fun s hs => by
-    obtain ⟨hid, _, ha, _, hcc⟩ := hs
-    exact ⟨hid, by simp, ha, by intro m hm; simp [Probe.clear] at hm, hcc⟩)
+    obtain ⟨hid, hinc, ha, _, hcc⟩ := hs
+    exact ⟨hid, ⟨by simp, hinc.2⟩, ha, by intro m hm; simp [Probe.clear] at hm, hcc⟩)
 
 /-- `change_identity` to an identity within the wire range -/
 theorem WireInv.changeIdentity (newId : Id) (pol : Policy) (hw : IdWire newId) :
-    Pres (WireInv E) (Foca.changeIdentity E newId pol) := by
-  have B := WireInv.base E
+    Pres (WireInv E τ) (Foca.changeIdentity E newId pol) := by
+  have B := WireInv.base E τ
   unfold Foca.changeIdentity
   refine Pres.getS_with (fun s hs => ?_)
   split
   · exact Pres.throwE _
   · dsimp only
-    refine Pres.bind (Pres.modS_of (fun s' hs' => ?_)) (fun _ => Pres.bind (WireInv.reset E) (fun _ => ?_))
+    refine Pres.bind (Pres.modS_of (fun s' hs' => ?_)) (fun _ => Pres.bind (WireInv.reset E τ) (fun _ => ?_))
     · obtain ⟨_, hinc, ha, hb, hcc⟩ := hs'
       exact ⟨hw, hinc, ha, hb, hcc⟩
     · split
-      · exact Pres.bind (B.addUpdate _ ⟨hs.1, by simp⟩) (fun _ => B.gossip)
+      · exact Pres.bind (B.addUpdate _ (MW.down0 τ hs.1)) (fun _ => B.gossip)
       · exact B.gossip
 
-theorem WireInv.attemptRejoin : Pres (WireInv E) (Foca.attemptRejoin E) := by
+theorem WireInv.attemptRejoin : Pres (WireInv E τ) (Foca.attemptRejoin E) := by
   unfold Foca.attemptRejoin
   refine Pres.getS_with (fun s hs => ?_)
   split
@@ -224,27 +247,27 @@ theorem WireInv.attemptRejoin : Pres (WireInv E) (Foca.attemptRejoin E) := by
     · exact Pres.pure _
     · split
       · exact Pres.pure _
-      · exact Pres.bind (WireInv.changeIdentity E newId s.policy (renew_wire hs.1 hren))
+      · exact Pres.bind (WireInv.changeIdentity E τ newId s.policy (renew_wire hs.1 hren))
           (fun _ => Pres.bind (Pres.emit _) (fun _ => Pres.pure _))
 
 theorem satAdd16_wire (n : Nat) : satAdd16 n < 65536 := by
   unfold satAdd16; split <;> omega
 
-theorem WireInv.handleSelfUpdate (inc : Nat) (st : St) : Pres (WireInv E) (Foca.handleSelfUpdate E inc st) := by
-  have B := WireInv.base E
+theorem WireInv.handleSelfUpdate (inc : Nat) (st : St) : Pres (WireInv E τ) (Foca.handleSelfUpdate E inc st) := by
+  have B := WireInv.base E τ
   unfold Foca.handleSelfUpdate
   pres
   all_goals first
-    | exact WireInv.attemptRejoin E
+    | exact WireInv.attemptRejoin E τ
     | exact B.becomeUndead
     | exact B.gossip
-    | exact Pres.modS_of (fun s hs => ⟨hs.1, satAdd16_wire _, hs.2.2.1, hs.2.2.2.1, hs.2.2.2.2⟩)
+    | exact Pres.modS_of (fun s hs => ⟨hs.1, ⟨satAdd16_wire _, hs.2.1.2⟩, hs.2.2.1, hs.2.2.2.1, hs.2.2.2.2⟩)
 
-theorem WireInv.full : Full E (WireInv E) MWire MWire (fun h => IdWire h.src ∧ h.srcInc < 65536) where
-  toBase := WireInv.base E
-  handleSelfUpdate := WireInv.handleSelfUpdate E
-  inputDown := fun u hu => ⟨hu.1, by simp⟩
-  senderOk := fun _ _ hh _ _ => hh
+theorem WireInv.full : Full E (WireInv E τ) (MW τ) (MW τ) (fun h => MW τ ⟨h.src, h.srcInc, .alive⟩ ∧ MsgWire h.msg) where
+  toBase := WireInv.base E τ
+  handleSelfUpdate := WireInv.handleSelfUpdate E τ
+  inputDown := fun u hu => MW.down0 τ hu.1.1
+  senderOk := fun _ _ hh _ _ => hh.1
   applyOk := fun _ _ hu _ _ _ => hu
   failedOk := fun s0 m hp hm => by
     apply hp.2.2.2.1 m
@@ -254,51 +277,64 @@ theorem WireInv.full : Full E (WireInv E) MWire MWire (fun h => IdWire h.src ∧
     · simp at hm
 
 /-- the inputs of a call are within the wire range: the members of a batch, the header and member section of a
-    datagram (what any `u16`-typed codec decodes), the member a suspicion timeout names, a new identity -/
+    datagram (what any `u16`-typed codec decodes), the member a suspicion or indirect-probe timer names, a new
+    identity, the destination of an explicit announce -/
 def InputWire (op : Op) : Prop :=
-  (∀ us b, op = .applyMany us b → ∀ u ∈ us, MWire u) ∧
-  (∀ data, op = .data data → DataOk E MWire (fun h => IdWire h.src ∧ h.srcInc < 65536) data) ∧
-  (∀ m inc tok, op = .timer (.s2d m inc tok) → MWire ⟨m, inc, .down⟩) ∧
-  (∀ i p, op = .changeIdentity i p → IdWire i)
+  (∀ us b, op = .applyMany us b → ∀ u ∈ us, MW τ u) ∧
+  (∀ data, op = .data data → DataOk E (MW τ) (fun h => MW τ ⟨h.src, h.srcInc, .alive⟩ ∧ MsgWire h.msg) data) ∧
+  (∀ m inc tok, op = .timer (.s2d m inc tok) → MW τ ⟨m, inc, .down⟩) ∧
+  (∀ i p, op = .changeIdentity i p → IdWire i) ∧
+  (∀ p tok, op = .timer (.indirect p tok) → IdWire p) ∧
+  (∀ d, op = .announce d → IdWire d)
 
-theorem WireInv.reuseDownIdentity : Pres (WireInv E) Foca.reuseDownIdentity := by
+theorem WireInv.reuseDownIdentity : Pres (WireInv E τ) Foca.reuseDownIdentity := by
   unfold Foca.reuseDownIdentity
   pres
-  exact WireInv.reset E
+  exact WireInv.reset E τ
 
 /-- One public call with wire-range input keeps everything the instance holds within the wire range. -/
-theorem WireInv.step (s : State) (op : Op) (orc : Oracle) (h : WireInv E s) (hin : InputWire E op) :
+theorem WireInv.step (s : State) (op : Op) (orc : Oracle) (h : WireInv E τ s) (hin : InputWire E τ op) :
     match Foca.step E s op orc with
-    | .done s' _ _ _ => WireInv E s'
+    | .done s' _ _ _ => WireInv E τ s'
     | .stuck _ => True := by
-  have F := WireInv.full E
+  have F := WireInv.full E τ
   have hrun := (F.runOp op
-    (fun i p hi => WireInv.changeIdentity E i p (hin.2.2.2 i p hi))
-    (fun _ => WireInv.reuseDownIdentity E)
+    (fun i p hi => WireInv.changeIdentity E τ i p (hin.2.2.2.1 i p hi))
+    (fun _ => WireInv.reuseDownIdentity E τ)
     (fun m inc tok ht => hin.2.2.1 m inc tok ht)
     (fun us b hu => hin.1 us b hu)
     (fun data hd => hin.2.1 data hd)
-    (fun id _ => WireInv.removeDown E id)).run ⟨s, [], orc⟩ h
+    (fun id _ => WireInv.removeDown E τ id)).run ⟨s, [], orc⟩ h
   unfold Foca.step
   cases hr : Foca.runOp E op ⟨s, [], orc⟩ with
   | stuck x => trivial
   | ok r c => rw [hr] at hrun; exact hrun
   | err e c => rw [hr] at hrun; exact hrun
 
-/-- histories whose inputs are within the wire range, from an instance created with such an identity -/
-inductive WireHistory : State → Prop
-  | init (id : Id) (pol : Policy) (cfg : Config) : IdWire id → WireHistory (State.init id pol cfg)
-  | step {s s' : State} (op : Op) (orc : Oracle) (eff : List Effect) (r : Res) (left : Oracle) :
-      WireHistory s → InputWire E op → Foca.step E s op orc = .done s' eff r left → WireHistory s'
+theorem WireInv.mono {τ' : Id → Nat} (hle : ∀ id, τ id ≤ τ' id) {s : State} (h : WireInv E τ s) : WireInv E τ' s := by
+  obtain ⟨hid, hinc, ha, hb, hc⟩ := h
+  refine ⟨hid, hinc, fun m hm => MW.mono hle (ha m hm), fun m hm => MW.mono hle (hb m hm), ?_⟩
+  intro e he
+  obtain ⟨u, hu1, hu2⟩ := hc e he
+  exact ⟨u, hu1, MW.mono hle hu2⟩
 
-theorem WireInv.reachable {s : State} (h : WireHistory E s) : WireInv E s := by
+end
+
+/-- histories whose inputs are within the wire range (and within a running bound `τ` of the incarnations told,
+    which only grows), from an instance created with such an identity -/
+inductive WireHistory (E : Env) : State → (Id → Nat) → Prop
+  | init (id : Id) (pol : Policy) (cfg : Config) (τ : Id → Nat) : IdWire id → WireHistory E (State.init id pol cfg) τ
+  | step {s s' : State} {τ τ' : Id → Nat} (op : Op) (orc : Oracle) (eff : List Effect) (r : Res) (left : Oracle) :
+      WireHistory E s τ → (∀ id, τ id ≤ τ' id) → InputWire E τ' op →
+      Foca.step E s op orc = .done s' eff r left → WireHistory E s' τ'
+
+theorem WireInv.reachable (E : Env) {s : State} {τ : Id → Nat} (h : WireHistory E s τ) : WireInv E τ s := by
   induction h with
-  | init id pol cfg hw =>
+  | init id pol cfg τ hw =>
     refine ⟨hw, by simp [State.init], ?_, ?_, ?_⟩ <;> intro x hx <;> simp [State.init] at hx
-  | step op orc eff r left _ hin hstep ih =>
-    have := WireInv.step E _ op orc ih hin
+  | step op orc eff r left _ hle hin hstep ih =>
+    have := WireInv.step E _ _ op orc (WireInv.mono E _ hle ih) hin
     rw [hstep] at this
     exact this
 
-end
 end Foca
